@@ -67,8 +67,8 @@ type Content struct {
 }
 
 type ContentFileInfo struct {
-	Owner string      `yaml:"owner,omitempty" json:"owner,omitempty"`
-	Group string      `yaml:"group,omitempty" json:"group,omitempty"`
+	Owner string      `yaml:"owner,omitempty" json:"owner,omitempty" jsonschema:"oneof_type=string;number"`
+	Group string      `yaml:"group,omitempty" json:"group,omitempty" jsonschema:"oneof_type=string;number"`
 	Mode  os.FileMode `yaml:"mode,omitempty" json:"mode,omitempty"`
 	MTime time.Time   `yaml:"mtime,omitempty" json:"mtime,omitempty"`
 	Size  int64       `yaml:"-" json:"-"`
